@@ -6,6 +6,95 @@ namespace CffiVerif.Buffer
 open CffiVerif.Mem
 open CffiVerif.Index (PyArg ssizeMin ssizeMax fitsSsize)
 
+/-! ### meaning of the definitions regenerated from the C source (Generated/BufferExprs.lean) -/
+
+theorem gen_itemRejected (i n : Int) : G.itemRejected i n ↔ (i < 0 ∨ i ≥ n) := Iff.rfl
+theorem gen_assItemRejected (i n : Int) : G.assItemRejected i n ↔ (i < 0 ∨ i ≥ n) := Iff.rfl
+theorem gen_sliceLeftNegative (l : Int) : G.sliceLeftNegative l ↔ l < 0 := Iff.rfl
+theorem gen_sliceLeftFloor (l : Int) : G.sliceLeftFloor l = 0 := rfl
+theorem gen_sliceRightTooLarge (r n : Int) : G.sliceRightTooLarge r n ↔ r > n := Iff.rfl
+theorem gen_sliceRightCeil (n : Int) : G.sliceRightCeil n = n := rfl
+theorem gen_sliceLeftAfterRight (l r : Int) : G.sliceLeftAfterRight l r ↔ l > r := Iff.rfl
+theorem gen_sliceLeftCollapse (r : Int) : G.sliceLeftCollapse r = r := rfl
+theorem gen_sliceCount (l r : Int) : G.sliceCount l r = r - l := rfl
+theorem gen_assSliceLeftNegative (l : Int) : G.assSliceLeftNegative l ↔ l < 0 := Iff.rfl
+theorem gen_assSliceLeftFloor (l : Int) : G.assSliceLeftFloor l = 0 := rfl
+theorem gen_assSliceRightTooLarge (r n : Int) : G.assSliceRightTooLarge r n ↔ r > n := Iff.rfl
+theorem gen_assSliceRightCeil (n : Int) : G.assSliceRightCeil n = n := rfl
+theorem gen_assSliceLeftAfterRight (l r : Int) : G.assSliceLeftAfterRight l r ↔ l > r := Iff.rfl
+theorem gen_assSliceLeftCollapse (r : Int) : G.assSliceLeftCollapse r = r := rfl
+theorem gen_assSliceCount (l r : Int) : G.assSliceCount l r = r - l := rfl
+theorem gen_assSliceLenMismatch (c n : Int) : G.assSliceLenMismatch c n ↔ c ≠ n := Iff.rfl
+theorem gen_subIndexNegative (i : Int) : G.subIndexNegative i ↔ i < 0 := Iff.rfl
+theorem gen_subIndexFixup (i n : Int) : G.subIndexFixup i n = i + n := rfl
+theorem gen_assSubIndexNegative (i : Int) : G.assSubIndexNegative i ↔ i < 0 := Iff.rfl
+theorem gen_assSubIndexFixup (i n : Int) : G.assSubIndexFixup i n = i + n := rfl
+theorem gen_bufExplicitSize (g : Int) : G.bufExplicitSize g ↔ g ≥ 0 := Iff.rfl
+theorem gen_bufSizeAbsent (g : Int) : G.bufSizeAbsent g ↔ g < 0 := Iff.rfl
+theorem gen_bufArraySize (n z : Int) : G.bufArraySize n z = n * z := rfl
+theorem gen_bufSizeUnknown (g : Int) : G.bufSizeUnknown g ↔ g < 0 := Iff.rfl
+theorem gen_fbFixedLength (n : Int) : G.fbFixedLength n ↔ n ≥ 0 := Iff.rfl
+theorem gen_fbMinimumLength (z : Int) : G.fbMinimumLength z = z := rfl
+theorem gen_fbFixedArrayLength (n : Int) : G.fbFixedArrayLength n = n := rfl
+theorem gen_fbItemSizeOne (z : Int) : G.fbItemSizeOne z ↔ z = 1 := Iff.rfl
+theorem gen_fbLengthSizeOne (l : Int) : G.fbLengthSizeOne l = l := rfl
+theorem gen_fbItemSizePositive (z : Int) : G.fbItemSizePositive z ↔ z > 0 := Iff.rfl
+theorem gen_fbLengthDiv (l z : Int) : G.fbLengthDiv l z = l.tdiv z := rfl
+theorem gen_fbTooSmall (l mn : Int) : G.fbTooSmall l mn ↔ l < mn := Iff.rfl
+theorem gen_cdataLenUnknown (z : Int) : G.cdataLenUnknown z = -1 := rfl
+theorem gen_cdataItemSizeKnown (z : Int) : G.cdataItemSizeKnown z ↔ z ≥ 0 := Iff.rfl
+theorem gen_cdataArrayLen (n z : Int) : G.cdataArrayLen n z = n * z := rfl
+theorem gen_memmoveNegative (n : Int) : G.memmoveNegative n ↔ n < 0 := Iff.rfl
+
+/-- Rewrites every generated definition into its meaning. -/
+syntax "gen_normB" (Lean.Parser.Tactic.location)? : tactic
+macro_rules
+  | `(tactic| gen_normB $[$loc]?) => `(tactic| simp only [gen_itemRejected, gen_assItemRejected, gen_sliceLeftNegative,
+      gen_sliceLeftFloor, gen_sliceRightTooLarge, gen_sliceRightCeil, gen_sliceLeftAfterRight, gen_sliceLeftCollapse,
+      gen_sliceCount, gen_assSliceLeftNegative, gen_assSliceLeftFloor, gen_assSliceRightTooLarge, gen_assSliceRightCeil,
+      gen_assSliceLeftAfterRight, gen_assSliceLeftCollapse, gen_assSliceCount, gen_assSliceLenMismatch,
+      gen_subIndexNegative, gen_subIndexFixup, gen_assSubIndexNegative, gen_assSubIndexFixup, gen_bufExplicitSize,
+      gen_bufSizeAbsent, gen_bufArraySize, gen_bufSizeUnknown, gen_fbFixedLength, gen_fbMinimumLength,
+      gen_fbFixedArrayLength, gen_fbItemSizeOne, gen_fbLengthSizeOne, gen_fbItemSizePositive, gen_fbLengthDiv,
+      gen_fbTooSmall, gen_cdataLenUnknown, gen_cdataItemSizeKnown, gen_cdataArrayLen, gen_memmoveNegative] $[$loc]?)
+
+/-- The length `_fetch_as_buffer` reports for a cdata array. -/
+theorem carrayLen_eq (n : Nat) (isize : Int) :
+    carrayLen n isize = if isize ≥ 0 then (n : Int) * isize else -1 := rfl
+
+/-- The array branch of `direct_from_buffer`, in plain terms. -/
+theorem fromBufferArray_eq (isize ctlength ctsize : Int) (len : Nat) :
+    fromBufferArray isize ctlength ctsize len =
+      if ctlength ≥ 0 then (if (len : Int) < ctsize then .error .ValueError else .ok ctlength.toNat)
+      else if isize = 1 then .ok len
+      else if isize > 0 then .ok (len / isize.toNat)
+      else .error .ZeroDivisionError := by
+  unfold fromBufferArray
+  gen_normB
+  have h0 : ¬ ((len : Int) < 0) := by omega
+  simp only [h0, if_false, Int.toNat_natCast]
+  by_cases h1 : ctlength ≥ 0
+  · simp only [h1, if_true]
+  · simp only [h1, if_false]
+    by_cases h2 : isize = 1
+    · simp only [h2, if_true]
+    · simp only [h2, if_false]
+      by_cases h3 : isize > 0
+      · simp only [h3, if_true]
+        obtain ⟨k, rfl⟩ := Int.eq_ofNat_of_zero_le (Int.le_of_lt h3)
+        rw [← Int.ofNat_tdiv, Int.toNat_natCast, Int.toNat_natCast]
+      · simp only [h3, if_false]
+
+/-- `mb_ass_slice` clamps exactly as `mb_slice` does. -/
+theorem clampLRAss_eq (size left right : Int) : clampLRAss size left right = clampLR size left right := by
+  unfold clampLRAss clampLR
+  gen_normB
+
+/-- `mb_ass_subscript` + `mb_ass_item` accept exactly the indexes `mb_subscript` + `mb_item` accept. -/
+theorem normIndexAss_eq (size : Nat) (key : PyArg) : normIndexAss size key = normIndex size key := by
+  unfold normIndexAss normIndex
+  gen_normB
+
 theorem adjust_eq_pyBound (size : Nat) (hs : (size : Int) ≤ ssizeMax) (x : Int) (d : Nat) :
     adjustIdx size (clampSsize x) 1 = (pyBound size d (some x) : Nat) := by
   unfold pyBound
@@ -78,7 +167,7 @@ theorem region_length (m : Bytes) (b : Buf) (hin : b.data + b.size ≤ m.length)
 theorem clampLR_nat (size A B : Nat) (_hA : A ≤ size) (hB : B ≤ size) :
     clampLR size A B = (((min A B : Nat) : Int), (B : Int)) := by
   unfold clampLR
-  simp only
+  gen_normB
   have h1 : ¬ ((A : Int) < 0) := by omega
   have h2 : ¬ ((B : Int) > size) := by omega
   simp only [h1, h2, if_false]
@@ -194,7 +283,7 @@ theorem normIndex_spec (size : Nat) (hs : (size : Int) ≤ ssizeMax) (i : Int) :
       else if -(size : Int) ≤ i ∧ i < 0 then .ok (i + size).toNat
       else .error .IndexError := by
   unfold normIndex
-  simp only
+  gen_normB
   by_cases hf : fitsSsize i
   · rw [if_neg (fun h => h hf)]
     unfold fitsSsize ssizeMin ssizeMax at *
